@@ -24,7 +24,7 @@ type C07Call struct {
 }
 
 type C07Case struct {
-	Callees []string    `json:"callees"` // actor | meta
+	Callees []string    `json:"callees"` // actor | split (actor with SetSplitHandle(true)) | meta
 	Callers [][]C07Call `json:"callers"`
 	// Remote: the callees (and the third-party responder) live on a second node; requests and replies
 	// cross a simulated network with latency, pooled links with skew and optionally the loss of one of the links
@@ -68,7 +68,7 @@ func (c07) Components() ([]string, []string) {
 func (c07) Generate(r *simkit.Rand, tier string) any {
 	c := &C07Case{}
 	for i, n := 0, r.Range(1, 3); i < n; i++ {
-		c.Callees = append(c.Callees, simkit.Pick(r, "actor", "actor", "actor", "meta"))
+		c.Callees = append(c.Callees, simkit.Pick(r, "actor", "actor", "split", "meta"))
 	}
 	maxCalls := 4
 	if tier == "thorough" {
@@ -300,6 +300,9 @@ func (c07) Run(e *simkit.Env, cc any) {
 			switch v := m.(type) {
 			case string:
 				if v == "setup" {
+					if kind == "split" {
+						p.SetSplitHandle(true)
+					}
 					a, err := p.CreateAlias()
 					if err != nil {
 						e.Fail("C07/unexpected-failure", "CreateAlias: %v", err)
